@@ -33,8 +33,8 @@ Proof. exact c05_ends_by_deadline_tcp. Qed.
 
 Theorem matching_ends_by_deadline_udp : forall fuel d rs t (s : st tnet), 0 <= t ->
   Forall (fun te => fst te <= tnow (nt s) + t)
-         (until_run d (own_tr s (udp_compile udp_granularity fuel d rs t (fun s' => Cont s') s))).
-Proof. exact (c05_ends_by_deadline_udp udp_granularity). Qed.
+         (until_run d (own_tr s (udp_compile udp_rechecks udp_granularity fuel d rs t (fun s' => Cont s') s))).
+Proof. exact (c05_ends_by_deadline_udp udp_rechecks udp_granularity). Qed.
 
 (* the matching buffer never holds more than MaxMatchingBytes - 1 + prefetchChunkSize bytes: at the end,
    and whenever a route runs, a cached verdict is used or the fallback is called *)
@@ -44,9 +44,9 @@ Theorem buffer_bounded_tcp : forall fuel d rs t (s : st tnet), buf_ok tnet s ->
 Proof. exact tcp_buffer_bounded. Qed.
 
 Theorem buffer_bounded_udp : forall fuel d rs t (s : st tnet), buf_ok tnet s ->
-  buf_ok tnet (res_st (udp_compile udp_granularity fuel d rs t (fun s' => Cont s') s)) /\
-  Forall ev_buf_ok (own_evs s (udp_compile udp_granularity fuel d rs t (fun s' => Cont s') s)).
-Proof. exact (udp_buffer_bounded udp_granularity). Qed.
+  buf_ok tnet (res_st (udp_compile udp_rechecks udp_granularity fuel d rs t (fun s' => Cont s') s)) /\
+  Forall ev_buf_ok (own_evs s (udp_compile udp_rechecks udp_granularity fuel d rs t (fun s' => Cont s') s)).
+Proof. exact (udp_buffer_bounded udp_rechecks udp_granularity). Qed.
 
 Theorem buffer_bound_value : Z.of_nat BUFB = layer4_MaxMatchingBytes - 1 + layer4_prefetchChunkSize.
 Proof. exact bufb_value. Qed.
@@ -66,17 +66,29 @@ Theorem not_early_tcp : forall fuel d rs t (s : st tnet) tm,
   In (tm, EDrop d DTimeout) (own_tr s (tcp_compile fuel d rs t (fun s' => Cont s') s)) -> tnow (nt s) + t <= tm.
 Proof. exact c05_not_early_tcp. Qed.
 
-(* not early, UDP: packetConn stores the deadline in nanoseconds (generated granularity = 1; repaired by
-   /repo commit 22876ab), so the emulation is never early either *)
+(* not early, UDP: a statement about the packetConn machine of model/Timing.v (stored deadline with the
+   granularity found in the source, deadline timer whose channel may hold a stale tick, recheck of the stored
+   deadline on a tick as found in the source).  It holds because the source stores nanoseconds (generated
+   granularity = 1; repaired by /repo commit 22876ab) and rechecks the deadline when the timer ticks
+   (generated layer4_pc_read_timer_tick_rechecks_deadline = true). *)
 Theorem not_early_udp : forall fuel d rs t (s : st tnet) tm,
-  In (tm, EDrop d DTimeout) (own_tr s (udp_compile udp_granularity fuel d rs t (fun s' => Cont s') s)) -> tnow (nt s) + t <= tm.
-Proof. exact (fun fuel d rs t s tm => c05_not_early_udp udp_granularity fuel d rs t s tm eq_refl). Qed.
+  In (tm, EDrop d DTimeout) (own_tr s (udp_compile udp_rechecks udp_granularity fuel d rs t (fun s' => Cont s') s)) -> tnow (nt s) + t <= tm.
+Proof. exact (fun fuel d rs t s tm => c05_not_early_udp udp_rechecks udp_granularity fuel d rs t s tm (conj eq_refl eq_refl)). Qed.
 
 (* ... which whole-second storage (Go's t.Unix(), the code before the repair) does not give: connection start
    at x.86 s, timeout 0.5 s, one datagram at +0.25 s: matching is abandoned at +0.25 s *)
 Theorem not_early_udp_whole_seconds_refuted :
   exists tm, In (tm, EDrop 0 DTimeout) (tr (res_st udp_witness)) /\ tm < 860 * ms + 500 * ms.
 Proof. exact (ex_intro _ (1110 * ms) udp_seconds_early). Qed.
+
+(* ... nor does a machine that takes every timer tick for a timeout (no recheck): after a non-terminal match
+   cleared the deadline a stale tick is left in the timer channel; the next undecided route arms the deadline
+   again and the next read reports a timeout at +0 ms (timeout 400 ms).  With the recheck: exactly at +400 ms. *)
+Theorem not_early_udp_tick_without_recheck_refuted :
+  (exists tm, In (tm, EDrop 0 DTimeout) (tr (res_st udp_tick_witness)) /\ tm < 500 * ms + 400 * ms) /\
+  first_drop (tr (res_st (udp_serve_m true 1 20 nonterm_undecided_routes (400 * ms) (t_init (500 * ms) [(500 * ms, [x01])] (100000 * ms)))))
+  = Some (500 * ms + 400 * ms, DTimeout).
+Proof. exact (conj (ex_intro _ (500 * ms) udp_tick_early) udp_tick_ok). Qed.
 
 (* once a route has matched, and before any fallback is called, the deadline is cleared and not re-armed:
    every route run and every fallback call happens with the deadline cleared, whatever the deadline state [a]
@@ -97,6 +109,16 @@ Example empty_route_list_clears_deadline :
   evs (res_st (s_serve 5 [] [] [])) = [EArm; EClear; EFallback 0 []].
 Proof. vm_compute. reflexivity. Qed.
 
+(* totality of the timed runs: with fuel >= need_rs rs neither timed instance runs out of fuel (arrivals carry
+   at least one byte each) *)
+Theorem timed_run_total_tcp : forall fuel d rs t next (s : st tnet), fuel_ok rs fuel -> arrivals_nonempty (nt s) ->
+  (forall s', is_exh (next s') = false) -> is_exh (tcp_compile fuel d rs t next s) = false.
+Proof. exact tcp_compile_total. Qed.
+
+Theorem timed_run_total_udp : forall fuel d rs t next (s : st tnet), fuel_ok rs fuel -> arrivals_nonempty (nt s) ->
+  (forall s', is_exh (next s') = false) -> is_exh (udp_compile udp_rechecks udp_granularity fuel d rs t next s) = false.
+Proof. exact (udp_compile_total udp_rechecks udp_granularity). Qed.
+
 (* hypotheses are satisfiable / the theorems are not vacuous: a trickling client over TCP is dropped exactly at the deadline *)
 Example c05_example_tcp :
   first_drop (tr (res_st (tcp_serve 20 undecided_routes (500 * ms)
@@ -113,7 +135,10 @@ Print Assumptions fails_closed.
 Print Assumptions not_early_tcp.
 Print Assumptions not_early_udp.
 Print Assumptions not_early_udp_whole_seconds_refuted.
+Print Assumptions not_early_udp_tick_without_recheck_refuted.
 Print Assumptions deadline_cleared_before_handlers.
 Print Assumptions drop_ends_everything.
 Print Assumptions empty_route_list_clears_deadline.
+Print Assumptions timed_run_total_tcp.
+Print Assumptions timed_run_total_udp.
 Print Assumptions c05_example_tcp.
